@@ -30,6 +30,7 @@ import (
 // unchanged; a "Failed" event is recorded and a fresh stream is opened for k+1.
 
 type streamSess struct {
+	t0     int // virtual time at which the stream was opened (its one refresh of the subscription's expiry)
 	cancel context.CancelFunc
 	stream pubsubpb.Subscriber_StreamingPullClient
 	msgs   chan *pubsubpb.ReceivedMessage
@@ -55,7 +56,7 @@ func (e *Exec) openStream(ctx context.Context, real string) (*streamSess, error)
 		holds.Delete(actor)
 		return nil, err
 	}
-	s := &streamSess{cancel: cancel, stream: stream, msgs: make(chan *pubsubpb.ReceivedMessage, 4096), errc: make(chan error, 1), actor: actor, h: h}
+	s := &streamSess{t0: e.W.NowTU(), cancel: cancel, stream: stream, msgs: make(chan *pubsubpb.ReceivedMessage, 4096), errc: make(chan error, 1), actor: actor, h: h}
 	if err := stream.Send(&pubsubpb.StreamingPullRequest{Subscription: real, StreamAckDeadlineSeconds: 10,
 		MaxOutstandingMessages: 1000, MaxOutstandingBytes: 1 << 30}); err != nil {
 		s.close()
@@ -311,7 +312,9 @@ func (e *Exec) doStreamAN(ctx context.Context, st Step) error {
 
 // finishStream releases the sender, records what it hands out now, and ends the session.
 func (e *Exec) finishStream(s *streamSess, sub, real string) error {
-	t0 := e.W.NowTU()
+	// the event's interval starts when the stream was opened: that is when this "pull" refreshed
+	// the subscription's expiry (the clauses that use t0 as a lower bound only get weaker)
+	t0 := s.t0
 	s.h.set(false)
 	got, _ := s.quiet(90*time.Millisecond, 2*time.Second)
 	s.close()
